@@ -42,7 +42,8 @@ def classify(sql):
 
 
 class Recorder(object):
-    def __init__(self, fault=None):
+    def __init__(self, fault=None, sql_limit=300):
+        self.sql_limit = sql_limit
         self.events = []
         self.seq = 0
         self.fault = fault or {}
@@ -86,7 +87,7 @@ class Recorder(object):
                     raise OperationalError('injected fault at statement %d'
                                            % idx)
                 self.emit('stmt', db=alias, kind=kind, index=idx,
-                          sql=sql[:300], params=_plain(params))
+                          sql=sql[:self.sql_limit], params=_plain(params))
             elif kind == 'bookkeeping':
                 self.emit('book', db=alias, sql=sql[:200])
             return execute(sql, params, many, context)
@@ -307,7 +308,7 @@ def main():
         a for a in settings.INSTALLED_APPS
         if a not in ('django.contrib.contenttypes', 'django_evolution')]
     result = {'outcome': 'ok', 'action': req.get('action')}
-    rec = Recorder(fault=req.get('fault'))
+    rec = Recorder(fault=req.get('fault'), sql_limit=req.get('sql_limit', 300))
     keep = install_signal_receivers(rec)
     wrap_transactions(rec, aliases)
     wrap_evolver(rec)
